@@ -25,7 +25,7 @@ ASSUMPTIONS = [
     "when an override is given only the file span is compared, not the per-tier xmin/xmax header (the statement fixes the file span)",
     "minimumIntervalLength=None (sliver absorption is C04)",
 ]
-REQUIRED_CLASSES = ["wellformed:tiers_with_own_span", "wellformed:format_token", "wellformed:quote", "wellformed:gap_filled", "wellformed:override"]
+REQUIRED_CLASSES = ["wellformed:sliver_with_default_threshold", "wellformed:tiers_with_own_span", "wellformed:format_token", "wellformed:quote", "wellformed:gap_filled", "wellformed:override"]
 
 
 def run_case(case):
@@ -90,6 +90,24 @@ def run_case(case):
                     if any(not e[0] < e[1] for e in ents):
                         raise Violation(f"partition:{fmt}", f"{what}: non-positive interval in {ents}")
             decoded[(fmt, blanks)] = got
+        if blanks:
+            # the partition clause also holds with the default sliver threshold (whatever is absorbed)
+            for fmt in FORMATS:
+                what = f"save({fmt}, includeBlankSpaces=True, default minimumIntervalLength, {kw})"
+                text = iomodel.save_text(tg, fmt, True, **kw)
+                try:
+                    got = tgspec.read_any(text, fmt)
+                except (tgspec.SpecError, ValueError) as e:
+                    raise Violation(f"malformed:{fmt}", f"{what}: independent reader: {e}; text={text[:400]!r}")
+                for t in got["tiers"]:
+                    ents = t["entries"]
+                    if t["class"] != "IntervalTier" or not ents:
+                        continue
+                    if ents[0][0] != got["xmin"] or ents[-1][1] != got["xmax"] or any(x[1] != y[0] for x, y in zip(ents, ents[1:])) \
+                            or any(not e[0] < e[1] for e in ents):
+                        raise Violation(f"partition-default-threshold:{fmt}", f"{what}: tier {t['name']!r} {ents} is not a partition of [{got['xmin']!r},{got['xmax']!r}]")
+            if gen.min_gap(spec) < 1e-8:
+                cl.add("sliver_with_default_threshold")
         a, b = decoded[("short_textgrid", blanks)], decoded[("long_textgrid", blanks)]
         if a != b:
             raise Violation("formats-disagree:short-vs-long", f"blanks={blanks}: {a} != {b}")
@@ -105,6 +123,13 @@ def cases(draw):
     spec = draw(gen.io_textgrid(clean=clean, token_rate=2))
     case = {"tg": spec, "min_override": None, "max_override": None}
     r = draw(st.integers(0, 5)) if clean else 5
+    if clean and draw(st.integers(0, 5)) == 0 and spec["maxT"] < 1e4:
+        # a trailing stretch shorter than the default sliver threshold
+        hi = spec["maxT"] + 5e-9
+        if hi > spec["maxT"]:
+            spec["maxT"] = hi
+            for t in spec["tiers"]:
+                t["maxT"] = hi
     if r in (0, 1):
         case["max_override"] = draw(st.sampled_from([spec["maxT"], spec["maxT"] + 1.0, spec["maxT"] * 2 + 0.5]))
         if not case["max_override"] >= spec["maxT"]:
